@@ -33,7 +33,7 @@ MUTATORS = [
     ("popb", 3), ("popf", 3), ("rel", 4),
     ("erase", 2), ("eraser", 2), ("clear", 1), ("sort", 3),
     ("swap", 7), ("cpa", 6), ("mva", 6), ("cpc", 3), ("mvc", 3),
-    ("sortp", 3), ("mkl", 2), ("pushbv", 2), ("pushfv", 1), ("insv", 2), ("setv", 2),
+    ("sortp", 3), ("mkl", 2), ("pushbv", 2), ("pushfv", 1), ("insv", 2), ("setv", 2), ("pushbmv", 1), ("pushfmv", 1), ("setmv", 1),
 ]
 OBSERVERS = [("pre", 3), ("toroot", 3), ("depth", 2), ("level", 2), ("cpos", 1), ("cposk", 2), ("map", 2), ("eq", 3),
              ("front", 1), ("back", 1), ("kids", 2), ("out", 2), ("obsall", 2)]
@@ -91,7 +91,7 @@ def line(rng, name):
         return f"mkl {node(rng)} {val(rng)}"
     if name == "insv":
         return f"insv {node(rng)} {rng.below(12)} {node(rng)}"
-    if name in ("swap", "cpa", "mva", "cpos", "eq", "pushbv", "pushfv", "setv"):
+    if name in ("swap", "cpa", "mva", "cpos", "eq", "pushbv", "pushfv", "setv", "pushbmv", "pushfmv", "setmv"):
         a = node(rng)
         b = a if rng.chance(1, 25) else node(rng)
         return f"{name} {a} {b}"
@@ -294,7 +294,8 @@ def unary_cases(pth, sub):
 
 def binary_cases(pa, ka, pb):
     out = [f"swap {pa} {pb}", f"cpa {pa} {pb}", f"mva {pa} {pb}", f"pushbt {pa} {pb}", f"pushft {pa} {pb}",
-           f"setv {pa} {pb}", f"pushbv {pa} {pb}", f"pushfv {pa} {pb}"]
+           f"setv {pa} {pb}", f"pushbv {pa} {pb}", f"pushfv {pa} {pb}", f"setmv {pa} {pb}", f"pushbmv {pa} {pb}",
+           f"pushfmv {pa} {pb}"]
     for i in range(ka + 1):
         out += [f"inst {pa} {i} {pb}", f"insv {pa} {i} {pb}"]
     return out
